@@ -436,8 +436,20 @@ func (o *WireOracles) checkEndpointView() {
 		for _, pn := range o.forged[side] {
 			intact[pk{"1RTT", pn}] = true
 		}
+		// C20 on real connections: the endpoint's own account of bytes in flight and congestion window. New ack-eliciting
+		// data goes out only while the bytes in flight are below the window: they may pass it by at most one packet, unless
+		// a probe timeout fired or a loss shrank the window below what is in flight (judged again once they are back under it)
+		prevInFlight, excused := 0, false
 		ql.mu.Lock()
 		for _, e := range ql.Events {
+			switch ev := e.Ev.(type) {
+			case qlog.PTOCountUpdated:
+				if ev.PTOCount > 0 {
+					excused = true
+				}
+			case qlog.PacketLost, qlog.CongestionStateUpdated, qlog.MTUUpdated:
+				excused = true
+			}
 			switch ev := e.Ev.(type) {
 			case qlog.PacketReceived:
 				k := pk{string(ev.Header.PacketType), int64(ev.Header.PacketNumber)}
@@ -450,6 +462,13 @@ func (o *WireOracles) checkEndpointView() {
 					if ev.CongestionWindow < 2*1200 || ev.CongestionWindow > 10001*1500 {
 						o.report("C20", "congestion window reported by a real connection is outside its bounds", "%s: cwnd %d", dirName(side), ev.CongestionWindow)
 					}
+					if ev.BytesInFlight <= ev.CongestionWindow {
+						excused = false
+					} else if !excused && ev.BytesInFlight > prevInFlight && ev.BytesInFlight > ev.CongestionWindow+1500 {
+						o.report("C20", "a real connection released new data although its bytes in flight had reached the congestion window", "%s at %v: %d bytes in flight (before: %d), congestion window %d, no probe timeout or loss since they were last below it", dirName(side), time.Duration(e.AtNS), ev.BytesInFlight, prevInFlight, ev.CongestionWindow)
+						excused = true
+					}
+					prevInFlight = ev.BytesInFlight
 				}
 			}
 		}
